@@ -22,6 +22,23 @@ Definition expected_readByte : string * list cstmt6 :=
     KOther "n, err := io.ReadFull(r, v[:])";
     KReturn "int64(n), v[0], err" ]).
 
+(* added with the fixes of String / ByteArray.ReadFrom (bounded-step reads) *)
+Definition expected_readBytes : string * list cstmt6 :=
+  ("func readBytes(r io.Reader, n int) ([]byte, error)",
+  [
+    KOther "first := min(n, maxPreallocBytes)";
+    KOther "buf := make([]byte, first)";
+    KFor "read := 0" "" "" [
+    KOther "nn, err := io.ReadFull(r, buf[read:])";
+    KIf "" "err != nil" [
+      KIf "" "err == io.EOF && read > 0" [
+        KOther "err = io.ErrUnexpectedEOF" ] [];
+      KReturn "buf[:read+nn], err" ] [];
+    KIf "read = len(buf)" "read == n" [
+      KReturn "buf, nil" ] [];
+    KOther "more := min(n-read, read)";
+    KOther "buf = append(buf, make([]byte, more)...)" ] ]).
+
 Definition expected_PluginMessageData_ReadFrom : string * list cstmt6 :=
   ("func (p *PluginMessageData) ReadFrom(r io.Reader) (n int64, err error)",
   [
@@ -92,6 +109,7 @@ Definition expected_Ary_WriteTo : string * list cstmt6 :=
       KReturn "n, err" ] [] ];
     KReturn "n, nil" ]).
 
+(* re-recorded after fix 9fa2cc1 (bounded preallocation, growth as the elements arrive) *)
 Definition expected_Ary_ReadFrom : string * list cstmt6 :=
   ("func (a Ary[LEN]) ReadFrom(r io.Reader) (n int64, err error)",
   [
@@ -107,9 +125,13 @@ Definition expected_Ary_ReadFrom : string * list cstmt6 :=
     KIf "" "!array.CanAddr()" [
     KPanic "errors.New(""the contents of the Ary are not addressable"")" ] [];
     KIf "" "array.Cap() < int(Len)" [
-    KOther "array.Set(reflect.MakeSlice(array.Type(), int(Len), int(Len)))" ] [
+    KOther "first := min(int(Len), maxPreallocElems)";
+    KOther "array.Set(reflect.MakeSlice(array.Type(), first, first))" ] [
     KOther "array.SetLen(int(Len))" ];
     KFor "i := 0" "i < int(Len)" "i++" [
+    KIf "" "i == array.Len()" [
+      KOther "more := min(int(Len)-i, i)";
+      KOther "array.Set(reflect.AppendSlice(array, reflect.MakeSlice(array.Type(), more, more)))" ] [];
     KOther "elem := array.Index(i)";
     KOther "nn, err := elem.Addr().Interface().(FieldDecoder).ReadFrom(r)";
     KOther "n += nn";
